@@ -1,21 +1,21 @@
-//! C11: arbitrary bytes as an encoded field section, judged by the reference decoder.
+//! libFuzzer entry for the `qpack` target: see vcheck::fuzzing (shared with `vcheck fuzz-replay`).
+//! Aborts only on a violation that /verif/known_findings.json does not list.
 #![no_main]
 use libfuzzer_sys::fuzz_target;
-use vcheck::props::c11;
-use vcheck::report::{KnownFindings, Report};
+use vcheck::report::KnownFindings;
 
 fuzz_target!(|data: &[u8]| {
     static INIT: std::sync::Once = std::sync::Once::new();
     INIT.call_once(vcheck::panics::install_hook);
-    if data.len() > 400 {
+    let prop = vcheck::fuzzing::property_of("qpack").unwrap();
+    let viol = vcheck::fuzzing::run("qpack", data);
+    if viol.is_empty() {
         return;
     }
-    let mut rep = Report::new();
-    c11::fuzz_one(data, &mut rep);
-    if let Some(v) = rep.violations.first() {
-        let known = KnownFindings::load(Some("/verif/known_findings.json"));
-        if known.lookup("C11", &v.sig).is_none() {
-            eprintln!("VIOLATION property=C11 signature={} detail={}", v.sig, v.detail);
+    let known = KnownFindings::load(std::env::var("VCHECK_KNOWN").ok().as_deref().or(Some("/verif/known_findings.json")));
+    for (sig, detail) in viol {
+        if known.lookup(prop, &sig).is_none() {
+            eprintln!("VIOLATION property={} signature={} detail={}", prop, sig, detail);
             std::process::abort();
         }
     }
